@@ -77,7 +77,7 @@ def run(ctx):
     return ctx.finish(RULE, TRUSTED)
 
 
-RULE = ('TLC enumerates configurations <<program A, program B, cold/warm>> over 52 access programs (quick: every program with itself and with three '
+RULE = ('TLC enumerates configurations <<program A, program B, cold/warm>> over 53 access programs (quick: every program with itself and with three '
         'others; thorough: all unordered pairs) and all interleavings of 3 threads for each; every configuration is executed on the real library '
         'built with -fsanitize=thread (3 threads, barrier start, 3 iterations). distinct_nontrivial = configurations executed.')
 TRUSTED = ['TLC', 'ThreadSanitizer', 'Threads.tla access-program table']
